@@ -7,12 +7,22 @@ res = json.load(open(os.path.join(V, "seeded", "RESULTS.json")))
 ben = json.load(open(os.path.join(V, "seeded", "BENIGN_RESULTS.json"))) if os.path.exists(os.path.join(V, "seeded", "BENIGN_RESULTS.json")) else {}
 NOTES = {
     "C01/3": "a C02 defect seeded through the C01 anchor (hash of the language tag): caught by C02's R2.4/R2.5, which C01 lists as its assumption",
-    "C04/2": "NOT detected: labelling heuristic of the pretty serializer (C04 ND; R4.3 not built)",
-    "C05/2": "NOT detected: path pruning `<=` for `<` in Hash N-Degree Quads (algorithmic, C05/C06 ND)",
+    "C04/2": "NOT detected: labelling heuristic of the pretty serializer for quoted triples (C04 ND: build_labelled beyond its position table)",
+    "C05/2": "NOT detected: path pruning `<=` for `<` in Hash N-Degree Quads (algorithmic fidelity to RDFC-1.0, C05/C06 ND)",
+    "C06/4": "NOT detected: same kind of change as C05/2 (smaller_path rewritten as a prefix test with `<=`)",
+    "C12/4": "NOT detected: list bookkeeping re-keyed by (graph, label) slot, which loses the dataset-wide 'referenced once' semantics (C12 ND: list detection)",
+    "C05/4": "caught by C06 (new slicing sites in the canonical escaper need an audit entry)",
+    "C05/5": "caught by C06's R6.6 (fresh issuer copy per permutation)",
+    "C05/6": "caught by C06's R6.7 (step 5.2 skips only canonically issued nodes)",
     "C06/3": "caught by C05's R5.1 (the final sort must compare fixed-length position sequences)",
     "C10/3": "neutralised by the repair 679b310: on the repaired tree the demonstration passes with the patch (clone rebuilds its borrowers), the property holds, no alarm expected; C16 reports the new recursion it introduces",
+    "C11/4": "an in-memory iterator defect seeded through C11: caught by C01's R1.5",
+    "C11/6": "a matcher defect (Not forwards constant()) seeded through C11: caught by C01's R1.6",
+    "C15/4": "a bulk-load override of the store seeded through C15: caught by C01's R1.8 (who may write the index sets)",
     "C16/3": "neutralised by the repair 13e48da (the iterator it reroutes through is a loop now): demonstration passes with the patch on the repaired tree",
+    "C18/5": "caught by C15's R15.1 (the Result of finish() is dropped), to which C18 delegates error propagation",
     "C20/2": "same change as C04/3 (unescaped `.`): a C04 language obligation, caught by C04",
+    "C20/5": "a quoted_string defect seeded through C20: caught by C03's R3.1c",
 }
 rows = []
 n_det = n_own = n_neutral = n_miss = 0
@@ -81,11 +91,16 @@ sec12 = """## 12. Behaviour-preserving variants (false-alarm self-test)
 behaviour, names and signatures and to make the edits a maintainer makes all the time; each keeps the
 repository's suite green (recorded in its `meta.json`).  `tools/run_benign.py` applies each one to a scratch
 worktree of the repaired tree and runs **all** registered checks: a new violation key is a false alarm.
-Current result: %d of %d raise an alarm.  The first round raised five, all corrected in the rules (never by
-loosening a rule): a kind predicate spelled `==` instead of `matches!` (C12, now decided per kind by
-`kind_predicate`), `?` replaced by `match .. Ok(true)/Ok(false)/Err` in `insert_all` (C01 R1.7), a panic site
-spelled as a direct call instead of a function reference passed to `map` (C08, now discharged by a provenance
-rule on the re-parsed value), `if g.is_none()` spelled `match g` (C11 guard), and two of my own controls.
+Current result: %d of %d raise an alarm.  Thirteen variants raised one at some point; each was corrected by generalising
+the idiom the rule recognises, never by loosening the rule: a kind predicate spelled `==` instead of `matches!` (C12,
+now decided per kind by `kind_predicate`); `?` replaced by `match .. Ok(true)/Ok(false)/Err` (C01 R1.7, C09
+`Namespace::get`, C18 pairing — `try_success_edge` and the path enumerator now treat an explicit `Err(e) => return Err(..)`
+like `?`); a panic site spelled as a direct call instead of a function reference passed to `map` (C08, now discharged by a
+provenance rule on the re-parsed value); `if g.is_none()` spelled `match g` (C11 guard); a test bound to a boolean first
+(`let ok = a && b || ..; if ok`, C04 L4.1 and C20 R20.2 — the path enumerator tracks boolean temporaries per path);
+`found.map(..)` spelled as a `match` (C04 R4.2); `unwrap_or_else` spelled as a `match` (C14 R14.2, where the variant would
+otherwise have *hidden* the known finding); a flag tested a second time inside a `debug_assert!` (C01 R1.5); audited keys
+that contained closure ordinals (C12, shifted by my own repair).
 
 | variant | kind of edit | file(s) | all 19 checks |
 |---|---|---|---|
